@@ -97,6 +97,35 @@ package node
 //@   assumes u(ctrler.nextBlockCtx.feeSum) < 2^200 && feeSumObj == ctrler.nextBlockCtx.feeSum
 //@   modifies everything
 //@   preserves RigoApp.*, BlockContext.feeSum, BlockContext.blockInfo, Config.*, govGasPrice, govMinTrxGas
+//@   assert@call(NewTrxContext,0): $arg3 == true && $arg1 == bheight(ctrler.nextBlockCtx)                       [C06]
 //@   ensures result.Code != 0 ==> u(ctrler.nextBlockCtx.feeSum) == old(u(ctrler.nextBlockCtx.feeSum))           [C05,C16]
 //@   ensures result.Code == 0 ==> u(ctrler.nextBlockCtx.feeSum) == old(u(ctrler.nextBlockCtx.feeSum)) + result.GasUsed * old(govGasPrice[ctrler.govCtrler])   [C16]
 //@   ensures result.Code == 0 ==> result.GasUsed <= result.GasWanted || result.GasWanted < 0                    [C16]
+
+// ---- mempool checks and queries (C06, C19) -------------------------------------------------------
+
+// the callback CheckTx hands to NewTrxContext: same wiring as in deliverTxSync, no block counter
+//@ func (ctrler *RigoApp) CheckTx__1(_txctx)
+//@   nopanic
+//@   requires _txctx != nil
+//@   assumes ctrler != nil && ctrler.rootConfig != nil && ctrler.govCtrler != nil && ctrler.rootConfig.Config != nil
+//@   modifies _txctx.TrxGovHandler, _txctx.TrxAcctHandler, _txctx.TrxStakeHandler, _txctx.TrxEVMHandler, _txctx.GovHandler, _txctx.AcctHandler, _txctx.StakeHandler, _txctx.ChainID
+//@   ensures result == nil && _txctx.TrxGovHandler != nil && _txctx.TrxAcctHandler != nil && _txctx.TrxStakeHandler != nil && _txctx.TrxEVMHandler != nil && _txctx.GovHandler != nil && _txctx.AcctHandler != nil   [C09]
+
+// a mempool check builds its context with exec == false (every handler then selects the scratch view) and
+// does not touch the block being executed
+//@ func (ctrler *RigoApp) CheckTx(req)
+//@   objinv wf_app(ctrler) && ctrler.lastBlockCtx != nil
+//@   modifies everything
+//@   preserves RigoApp.*, BlockContext.*, Config.*
+//@   assert@call(NewTrxContext,0): $arg3 == false                                                             [C06]
+
+// a query is answered at the requested height, or at the last committed height when none is given
+//@ func (ctrler *RigoApp) Query(req)
+//@   requires ctrler != nil && ctrler.lastBlockCtx != nil && ctrler.acctCtrler != nil && ctrler.stakeCtrler != nil && ctrler.govCtrler != nil && ctrler.vmCtrler != nil && ctrler.logger != nil
+//@   assumes !cons_ok
+//@   modifies everything
+//@   assert@call(Query,0): $arg1.Height == (old(req.Height) == 0 ? bheight(ctrler.lastBlockCtx) : old(req.Height)) && $arg1.Data == old(req.Data) && $arg1.Path == old(req.Path)   [C19]
+//@   assert@call(Query,1): $arg1.Height == (old(req.Height) == 0 ? bheight(ctrler.lastBlockCtx) : old(req.Height)) && $arg1.Data == old(req.Data) && $arg1.Path == old(req.Path)   [C19]
+//@   assert@call(Query,2): $arg1.Height == (old(req.Height) == 0 ? bheight(ctrler.lastBlockCtx) : old(req.Height)) && $arg1.Data == old(req.Data) && $arg1.Path == old(req.Path)   [C19]
+//@   assert@call(Query,3): $arg1.Height == (old(req.Height) == 0 ? bheight(ctrler.lastBlockCtx) : old(req.Height)) && $arg1.Data == old(req.Data)   [C19]
